@@ -49,7 +49,8 @@ QDict == "dict" \in Queries /\ \E s \in Nodes, sc \in {1, 2, 3, 4}: \E o \in Dic
                      jml |-> jml, jd |-> JsonExport(Ch, AttrScheme(sc), s, o, jml),
                      jdd |-> JsonExport(Ch, AttrScheme(sc), s, DefaultOpts, jml)]      \* no dictexporter supplied
 
-GraphNames == << <<"r">>, <<"a", "\"", "b">>, <<"a", "\\", "b">>, <<"a", " ", "b">>, <<"E">>, <<"r">>, <<"\\", "\"">> >>
+\* names with quotes, backslashes (also adjacent ones), a space, a non-ASCII character (E stands for e-acute) and a collision
+GraphNames == << <<"r">>, <<"\\", "\"", "x">>, <<"a", "\"", "\"">>, <<"E", " ", "\\", "\\", "b">>, <<"r">>, <<"a", "\\", "b">>, <<"\"">> >>
 QGraph == "graph" \in Queries /\ \E s \in Nodes: \E st \in SubsetsUpTo(Sub(s), MaxStop), hide \in SubsetsUpTo(Sub(s), MaxHide), ml \in {NoMax, 0, 1, 2, 3}:
            zlast' = [q |-> "graph", s |-> s, st |-> st, fl |-> Nodes \ hide, ml |-> ml,
                      def |-> GraphDef(Par, Ch, s, Nodes \ hide, st, ml),
